@@ -92,6 +92,11 @@ impl ValidationContext {
         self.validate_nodes_function_calls(story.root())?;
         self.validate_no_choice_in_conditional(story.root())?;
 
+        // Initial values can name divert targets and call functions too
+        for global in story.globals() {
+            self.validate_expr_function_calls(&global.initial_value)?;
+        }
+
         // Validate each flow
         for flow in story.flows() {
             // Validate that function purity rules are respected
